@@ -12,9 +12,13 @@ OS thread; the link thread is a script of steps, each one iteration of the
 *real* run loop over a scripted MAC (or a direct llc.terminate() call), run to
 completion at a symbolic preemption point of the application call.
 
+Family link_preempted turns the roles around (env.coop.PreemptSched): the link
+thread is preempted at one of its lock acquisitions (source lines of
+terminate() in thorough) by one complete application call.
+
 This is mostly schedule enumeration: what is symbolic is where the link thread
-runs (flags preempt_<n>), the peer's receive window, the link MIU and payload
-octets.
+runs (flags preempt_<n>) / where the application call runs (flags lpre_<n>,
+lres_<n>), the peer's receive window, the link MIU and payload octets.
 """
 import os
 import errno
@@ -271,6 +275,26 @@ class World(object):
             raise ValueError(state)
         return s
 
+    def crowd(self):
+        """several service access points at once (family link_preempted):
+        -> {name: socket}"""
+        sx, L = self.sx, self.L
+        self.peer_rw = sx.int("peer_rw", 0, 15)
+        lis = L.socket(DLC)
+        L.bind(lis, b"urn:nfc:sn:c09")              # address 16
+        L.listen(lis, 2)
+        L.dispatch(pdu.Connect(lis.addr, PEER, 128, self.peer_rw))
+        est = L.accept(lis)
+        L.collect()                                 # CC leaves
+        L.dispatch(pdu.Connect(lis.addr, PEER + 1, 128, 1))     # pending
+        self.listener = lis
+        ldl = L.socket(LDL)
+        L.bind(ldl, 40)
+        raw = L.socket(RAW)
+        L.bind(raw, 41)
+        return dict(lis=lis, est=est, ldl=ldl, raw=raw, new=L.socket(DLC),
+                    newldl=L.socket(LDL), newraw=L.socket(RAW))
+
     def poison(self, kind):
         """an outbound PDU that can not be encoded waits to be collected"""
         L = self.L
@@ -345,6 +369,12 @@ class World(object):
             return L.close(s)
         if name == 'getsockname':
             return [L.getsockname(s), L.getpeername(s)]
+        if name == 'socket':
+            return L.socket(DLC)
+        if name == 'bind_addr':
+            return L.bind(s, 42)
+        if name == 'bind_name':
+            return L.bind(s, b"urn:nfc:sn:new")
         raise ValueError(name)
 
 
@@ -743,6 +773,234 @@ def _waiters_vs_link(sx, S, kind, state, call, n, scripts):
 
 
 # ----------------------------------------------------------------------------
+# the link thread is preempted by one application call
+# ----------------------------------------------------------------------------
+LP_CALLS = {
+    '-': ['socket', 'resolve'],
+    'new': ['bind', 'bind_addr', 'bind_name', 'listen', 'connect',
+            'connect_sn', 'close', 'getsockopt'],
+    'newldl': ['sendto', 'bind', 'connect'],
+    'newraw': ['send_nb', 'bind_addr'],
+    'lis': ['accept', 'close', 'poll_recv', 'getsockopt'],
+    'est': ['send', 'send_nb', 'recv', 'poll_recv', 'poll_send', 'poll_acks',
+            'poll_recv_t', 'close', 'getsockopt'],
+    'ldl': ['sendto', 'recvfrom', 'poll_recv', 'close', 'connect'],
+    'raw': ['send', 'recv', 'poll_recv', 'close', 'bind_addr'],
+}
+# functions of the terminator whose every source line is a preemption point
+# of the link thread (lines=1): the loop over the service access points and
+# the loop over the sockets of one of them; inside the sockets' close() the
+# lock acquisitions are the preemption points
+LP_LINES = ("LogicalLinkController.terminate", "ServiceAccessPoint.shutdown",
+            "ServiceDiscovery.shutdown")
+
+
+def sock_kind(s):
+    if isinstance(s, tco.RawAccessPoint):
+        return 'raw'
+    if isinstance(s, tco.LogicalDataLink):
+        return 'ldl'
+    return 'dlc'
+
+
+def link_preempted(sx, scripts, calls, lines=0, resume=0, dying=0,
+                   collapse=0):
+    """The link thread (main OS thread) runs its script - the last step ends
+    the link - and is preempted at ONE of its preemption points (every lock
+    acquisition; with lines=1 also every source line of terminate() and the
+    shutdown()/close() methods it calls) by ONE application call, which runs
+    in a thread of its own until it ends or blocks (in Condition.wait(), or
+    at a lock the link thread owns).  A call that waits for a lock goes on
+    when the link thread has released it (there, or after the step); one
+    that sleeps in wait() goes on after the step in which it was notified
+    (resume=1: also at any later preemption point of the link thread).
+    A source line is a preemption point once for each state of the table of
+    service access points, the link state, the sockets' address / state /
+    queue lengths and lock counts in which the link thread meets it (the
+    loop of terminate() over the 64 addresses passes the same two lines with
+    nothing changed for every free address).
+    collapse=1: of several re-acquisitions in a row of a lock the link thread
+    owns, at the same call site with no other preemption point in between,
+    only the first is a preemption point."""
+    S = coop.new_preempt(sx)
+    try:
+        return _link_preempted(sx, S, scripts, calls, lines, resume, dying,
+                               collapse)
+    finally:
+        S.link_hook = None
+        S.current = 'setup'
+        S.shutdown()
+        coop.new_sched(sx)
+
+
+def _link_preempted(sx, S, scripts, calls, lines, resume, dying, collapse):
+    S.trace_files = TRACE_FILES
+    if lines:
+        S.link_lines = LP_LINES
+    role, script = pick_script(sx, scripts)
+    w = World(sx, role)
+    L = w.L
+    socks = w.crowd()
+    sname, call = sx.pick("call", calls)
+    sock = socks.get(sname)
+    appcall = "%s.%s" % (sname, call)
+    mark = ""
+    if dying:
+        w.dying = True
+        mark = ":deactivate-raises"
+        sx.reach("lp:dying-driver")
+    got = []
+
+    def body():
+        r = w.call(call, sock, "m0")
+        got.append(r)
+        return r
+    rec = S.spawn('T1', body)
+    steps = [(n, w.step(n, socks['est'])) for n in script]
+    st = dict(n=0, at=None, step=None, seen={}, nres=0, resumed=[],
+              facts=[], last=None, lines=set())
+    nsaps = len([x for x in L.sap if x is not None])
+
+    def fingerprint():
+        return (tuple(i for i in range(64) if L.sap[i] is not None),
+                L.lock.count, L.link.value,
+                tuple((x.addr, x.state.value, len(x.recv_queue),
+                       len(x.send_queue), x.lock.count)
+                      for n, x in sorted(socks.items())))
+
+    def hook(kind, site, lock):
+        if st['at'] is None:
+            if kind == 'release':
+                return
+            if kind == 'line':
+                # the loop of terminate() over 64 addresses: a line met
+                # again with the table and the sockets as they were then
+                key = (site, lock, fingerprint())
+                lock = None
+                if key in st['lines']:
+                    return
+                st['lines'].add(key)
+            k = st['seen'][site] = st['seen'].get(site, 0) + 1
+            last, st['last'] = st['last'], (kind, site)
+            if collapse and kind == 'reacquire' and last == (kind, site):
+                return      # e.g. ServiceAccessPoint.mode in a sort key
+            st['n'] += 1
+            if sx.flag("lpre_%d" % st['n']):
+                st['at'] = "%s@%s:%s#%d" % (st['step'], kind, site, k)
+                sx.reach("lp:at:%s:%s:%s" % (st['step'], kind, site))
+                left = len([x for x in L.sap if x is not None])
+                if L.lock.owner == 'link':
+                    st['facts'].append("link-holds-llc.lock")
+                if 0 < left < nsaps:
+                    st['facts'].append("table-partly-empty")
+                if lock is not None and lock is not L.lock and \
+                        L.lock.owner == 'link':
+                    st['facts'].append("link-wants-socket.lock")
+                S.run('T1')
+                st['facts'].append("app:" + rec.state)
+                if sock is not None and sname.startswith("new") and \
+                        sock.addr is not None:
+                    st['facts'].append("bound-during-preemption")
+            return
+        # the application call has begun and is descheduled: may it go on?
+        if rec.state == 'done' or not S.can_go_on('T1'):
+            return
+        if resume or (kind == 'release' and rec.state == 'lockwait' and
+                      lock is rec.wants):
+            st['nres'] += 1
+            if sx.flag("lres_%d" % st['nres']):
+                st['resumed'].append("%s@%s:%s" % (st['step'], kind, site))
+                S.run('T1')
+
+    def let_run():
+        for i in range(16):
+            if rec.state != 'done' and rec.state != 'new' and \
+                    S.can_go_on('T1'):
+                S.run('T1')
+            else:
+                return
+
+    def where():
+        return "link-preempted:%s/%s%s" % (st['at'] or "-", appcall, mark)
+    S.link_hook = hook
+    for nm, fn in steps:
+        st['step'], st['seen'], st['last'] = nm, {}, None
+        try:
+            S.link_call(fn)
+        except coop.LinkBlocked as e:
+            sx.check(False, "link-thread-blocked:%s:%s" % (where(), e.site))
+        except LoopDied as e:
+            sx.check(False, "run-loop-raises:%s:%s" % (e.args[0], where()))
+        except coop.CoopDeadlock as e:
+            sx.reach("failed")
+            sx.check(False, "deadlock:%s:%s" % (where(), deadlock_text(e)))
+        except coop.Unrepresentable:
+            sx.assume(False, "C09 link_preempted: schedules in which the "
+                      "link thread has to wait for a lock owned by an "
+                      "application thread that can go on are not explored")
+        let_run()
+    S.link_hook = None
+    sx.check(L.link.SHUTDOWN, "link-not-shut-down-after-script" + mark)
+    if rec.state == 'new':
+        # no preemption: the call is made after the link has ended
+        st['at'] = "after"
+        sx.reach("lp:not-preempted")
+        S.run('T1')
+    if rec.state == 'parked' and rec.timed and not rec.cell[0]:
+        S.run('T1', timeout=True)       # wait(timeout) times out
+        let_run()
+    what = where()
+    for f in st['facts']:
+        sx.reach("lp:" + f)
+    if S.lockwaits:
+        sx.reach("lp:app-waited-for-lock")
+    if st['resumed']:
+        sx.reach("lp:app-resumed-inside-link-step")
+    if rec.state == 'parked':
+        sx.reach("left-waiting")
+        sx.check(False, "left-waiting:%s:%s" % (what, rec.site))
+    if rec.state != 'done':
+        raise RuntimeError("coop: T1 is %s after the script" % rec.state)
+    e = rec.exc
+    if e is None:
+        res = ['ret', describe(rec.result)]
+    elif isinstance(e, nfc.llcp.Error):
+        res = ['err', errno.errorcode.get(e.errno, str(e.errno))]
+    elif isinstance(e, coop.CoopSignal):
+        sx.reach("failed")
+        sx.check(False, "%s:%s:%s" % (type(e).__name__, what, e.args[0]))
+    else:
+        sx.reach("failed")
+        sx.check(False, "raises:%s:%s" % (
+            what, exc_label(e)[len("uncaught:"):]))
+    sx.reach("lp:call:" + appcall)
+    if S.waits and st['at'] != "after":
+        sx.reach("lp:app-slept-and-was-woken")
+    # every later call on every socket that exists returns or raises Error
+    # without waiting
+    everything = sorted(socks.items())
+    if got and isinstance(got[0], tco.TransmissionControlObject):
+        if st['at'] != "after":
+            sx.reach("lp:accepted-during-preemption" if call == 'accept'
+                     else "lp:socket-created-during-preemption")
+        everything.append(("accepted" if call == 'accept' else "created",
+                           got[0]))
+    failures = []
+    later = []
+    for nm, s in everything:
+        for i, c in enumerate(LATER[sock_kind(s)]):
+            r = run_app(S, lambda: w.call(c, s, "l%s%d" % (nm, i)),
+                        "later:%s:%s.%s" % (what, nm, c), failures)
+            later.append(["%s.%s" % (nm, c)] + r)
+    report(sx, [f + ":after-link-end" for f in failures])
+    sx.reach("lp:later-calls-done")
+    return dict(script=script, role=role, call=appcall, at=st['at'],
+                first=res, npoints=st['n'], facts=st['facts'],
+                lockwaits=S.lockwaits, resumed=st['resumed'],
+                waits=S.waits, later=later)
+
+
+# ----------------------------------------------------------------------------
 STATES = ['raw:unbound', 'raw:bound', 'raw:data', 'raw:closed',
           'ldl:unbound', 'ldl:bound', 'ldl:connected', 'ldl:data', 'ldl:closed',
           'dlc:unbound', 'dlc:bound', 'dlc:listen', 'dlc:listen+conn',
@@ -772,6 +1030,13 @@ CONN_EVENTS = {
     'sd:fresh': ['loop:symm'],
     'sd:pending': ['loop:symm'],
 }
+
+
+# family link_preempted: terminators of the quick tier, conversation events
+# that precede the terminator in thorough (the step that delivers the event
+# is preemptible too)
+LP_ENDS = ['terminate', 'loop:local', 'loop:remote', 'loop:disrupt']
+LP_EVENTS = ['conn:connect', 'conn:disc', 'conn:dm', 'conn:i', 'loop:symm']
 
 
 def default_role(e):
@@ -828,6 +1093,31 @@ def partitions(tier):
         add("service", "%s:serve:0:dying" % server, server=server,
             body='serve', queued=0, dying=1,
             scripts=[[default_role(e), [e]] for e in ENDS[:5]])
+    # the link thread is preempted by one application call
+    for grp in sorted(LP_CALLS):
+        calls = [[grp, c] for c in LP_CALLS[grp]]
+        if quick:
+            for e in LP_ENDS:
+                add("link_preempted", "%s:%s" % (e, grp), calls=calls,
+                    collapse=1, scripts=[[default_role(e), [e]]])
+        else:
+            # the initiator's run loop begins with collect(): many more
+            # preemption points than the terminator itself has
+            for e in ENDS:
+                roles = ('ini', 'tgt') if e in LP_ENDS else ('tgt',)
+                add("link_preempted", "%s:%s" % (e, grp), calls=calls,
+                    scripts=[[role, [e]] for role in roles])
+            add("link_preempted", "lines:%s" % grp, calls=calls, lines=1,
+                scripts=[['ini', ['terminate']]])
+            add("link_preempted", "resume:%s" % grp, calls=calls, resume=1,
+                collapse=1,
+                scripts=[['ini', ['terminate']], ['tgt', ['loop:disrupt']],
+                         ['ini', ['loop:local']]])
+            add("link_preempted", "event:%s" % grp, calls=calls, collapse=1,
+                scripts=[['tgt', [ev, 'loop:disrupt']] for ev in LP_EVENTS])
+            add("link_preempted", "dying:%s" % grp, calls=calls, dying=1,
+                scripts=[['tgt' if e != 'terminate' else 'ini', [e]]
+                         for e in ENDS[:5]])
     for kind in sorted(WAITERS):
         if quick:
             add("waiters_vs_link", "%s:2" % kind, kind=kind, n=2,
@@ -907,24 +1197,56 @@ _MUST = ["later-calls-done", "spawned-thread-ran", "woken-by-link-end",
     ["pre:%s:wait" % c for c in WAITING] + \
     ["pre:%s:twait" % c for c in ('raw.poll_recv_t', 'ldl.poll_recv_t',
                                   'dlc.poll_recv_t', 'dlc.poll_acks_t')]
+# family link_preempted: the application call ran at a preemption point of
+# the link thread inside terminate() (the link thread owned llc.lock, had
+# emptied part of the table of service access points, was about to take a
+# socket's lock), waited for a lock of the link thread and went on when it
+# was released, slept in wait() and was woken by the rest of terminate(),
+# bound / created / accepted a socket at that point; all later calls made
+LP_SITES = ["acquire:LogicalLinkController.terminate",
+            "acquire:TransmissionControlObject.close",
+            "acquire:DataLinkConnection.close",
+            "reacquire:TransmissionControlObject.close",
+            "reacquire:ServiceDiscovery.shutdown"]
+_MUST_LP = ["lp:later-calls-done", "lp:not-preempted",
+            "lp:link-holds-llc.lock", "lp:link-wants-socket.lock",
+            "lp:table-partly-empty", "lp:app:done", "lp:app:lockwait",
+            "lp:app:parked", "lp:app-waited-for-lock",
+            "lp:app-resumed-inside-link-step", "lp:app-slept-and-was-woken",
+            "lp:accepted-during-preemption", "lp:bound-during-preemption",
+            "lp:socket-created-during-preemption",
+            "lp:at:loop:local:acquire:LogicalLinkController.collect",
+            "lp:at:loop:local:acquire:TransmissionControlObject.dequeue",
+            "lp:at:loop:local:acquire:DataLinkConnection.dequeue"] + \
+    ["lp:at:%s:%s" % (e, p) for e in LP_ENDS for p in LP_SITES] + \
+    ["lp:call:%s.%s" % (g, c) for g in sorted(LP_CALLS) for c in LP_CALLS[g]]
 MUST_REACH = {
-    "quick": _MUST,
+    "quick": _MUST + _MUST_LP,
     "thorough": _MUST + ["pre:%s:line" % c for c in LOCKING] +
-    ["pre:dlc.getsockopt:line", "pre:dlc.getsockname:line"],
+    ["pre:dlc.getsockopt:line", "pre:dlc.getsockname:line"] + _MUST_LP +
+    ["lp:at:%s:%s" % (e, p) for e in ENDS for p in LP_SITES] +
+    ["lp:at:terminate:line:%s" % f for f in LP_LINES] +
+    ["lp:dying-driver",
+     "lp:at:conn:connect:acquire:LogicalLinkController.dispatch",
+     "lp:at:conn:connect:reacquire:ServiceAccessPoint.enqueue",
+     "lp:at:conn:i:acquire:TransmissionControlObject.enqueue",
+     "lp:at:conn:disc:acquire:DataLinkConnection._enqueue_state_established",
+     "lp:at:loop:symm:acquire:LogicalLinkController.collect"],
 }
 BOUNDS = {
-    "quick": "schedule enumeration, not data: 2 logical threads (one application call, the link thread). Application call: each of send (blocking and MSG_DONTWAIT), sendto, recv, recvfrom, accept, connect (by address and by name), listen, bind, getsockopt, setsockopt, getsockname/getpeername, resolve (bytes and str), poll('recv'/'send'/'acks') without and with time-out, close - on a socket of each suitable kind in each of 25 states reached by <= 5 real set-up operations (raw/ldl: unbound, bound, datagram queued for recv, PDU queued for sending, connected, closed; dlc: unbound, bound, listening with empty / filled backlog, a thread sleeping in connect(), established (passive open through the real listen/dispatch/accept), established with data queued, with an unacknowledged / a not yet collected I PDU (send window full when RW(R)=1), CLOSE_WAIT, a thread sleeping in close(), closed; service discovery fresh / request pending). Link thread: one step that ends the link out of {llc.terminate() called directly, run loop ended by the terminate callback (local choice), MAC exchange returns None (link disruption), DISC received (remote choice), IOError in the MAC (input/output error + SystemExit), nfc.clf.TimeoutError in the MAC} each run through the real run_as_initiator/run_as_target over a scripted MAC, optionally preceded by one event of the conversation delivered by one real run-loop iteration (DISC, DM, FRMR, I with wrong N(S), valid I, UI, CONNECT, CC for the socket under test, SYMM) = 2 preemptions. Preemption points: before the call, every lock acquisition while the application thread holds no lock, every acquisition of a further lock while it holds one (a link step that then needs the held lock while owning the wanted one = lock-order deadlock), inside every Condition.wait(), after every wake-up; all enumerated. After the link ended 16-25 further calls on the same socket. Service bodies SnepServer._listen/_serve and HandoverServer.listen/serve with 0-2 queued connection requests / request fragments, link ended at every preemption point, threads they start run afterwards. Dying driver: for 4 socket states (thorough: all) and the four server bodies each link-ending step with a MAC whose deactivate() raises IOError(ENODEV) inside terminate(). Connections returned by accept() while the link ended are exercised by 8 further calls. The link loop dying from inside: for every state one run-loop iteration whose outbound PDU can not be encoded (a thread sleeping in resolve() of a 261-octet name, in connect() to a 261-octet service name, or a raw access point that queued a PDU with DSAP 70; link MIU 2175) - exchange() must absorb the EncodeError and the loop end the link; an exception other than SystemExit/KeyboardInterrupt leaving run_as_initiator/run_as_target is the violation run-loop-raises. Several waiters: 2 application threads (real call stacks, one running at a time) asleep in the same kind of call - resolve() of different names, accept() on one listening socket, recv()/recvfrom() on one raw / logical-data-link / connection socket, blocking send() on one connection / raw socket, poll('recv'), poll('acks') - in each rotation of the order they went to sleep, then each link-ending step, the woken threads run in every order; none may stay asleep. Symbolic: where the link thread runs (flags), RW announced by the peer 0..15 (send window open/full), link MIU 128..2175 for connection-less sockets, payload octets, SNEP header version/length octets",
-    "thorough": "as quick with every nfc.clf.CommunicationError subclass (TimeoutError, TransmissionError, ProtocolError, BrokenLinkError, CommunicationError itself) raised by the MAC, all three un-encodable PDUs in every state and both roles, 2 and 3 sleeping threads per kind of call (all terminators, both roles, also after a conversation event), both roles (initiator/target run loop) x all 6 link-ending steps (adds NFC-DEP time-out in exchange) alone and after every listed conversation event (all 2-step scripts), VERIF_SEED-chosen scripts of 3-4 link steps (up to 4 preemptions) for 14 states, and for every state and call a second enumeration at source-line granularity: a preemption point before every line of nfc.llcp.llc/tco/socket and the two server modules that the application thread executes while it holds no lock (terminators: llc.terminate(), remote DISC)",
+    "quick": "schedule enumeration, not data: 2 logical threads (one application call, the link thread). Application call: each of send (blocking and MSG_DONTWAIT), sendto, recv, recvfrom, accept, connect (by address and by name), listen, bind, getsockopt, setsockopt, getsockname/getpeername, resolve (bytes and str), poll('recv'/'send'/'acks') without and with time-out, close - on a socket of each suitable kind in each of 25 states reached by <= 5 real set-up operations (raw/ldl: unbound, bound, datagram queued for recv, PDU queued for sending, connected, closed; dlc: unbound, bound, listening with empty / filled backlog, a thread sleeping in connect(), established (passive open through the real listen/dispatch/accept), established with data queued, with an unacknowledged / a not yet collected I PDU (send window full when RW(R)=1), CLOSE_WAIT, a thread sleeping in close(), closed; service discovery fresh / request pending). Link thread: one step that ends the link out of {llc.terminate() called directly, run loop ended by the terminate callback (local choice), MAC exchange returns None (link disruption), DISC received (remote choice), IOError in the MAC (input/output error + SystemExit), nfc.clf.TimeoutError in the MAC} each run through the real run_as_initiator/run_as_target over a scripted MAC, optionally preceded by one event of the conversation delivered by one real run-loop iteration (DISC, DM, FRMR, I with wrong N(S), valid I, UI, CONNECT, CC for the socket under test, SYMM) = 2 preemptions. Preemption points: before the call, every lock acquisition while the application thread holds no lock, every acquisition of a further lock while it holds one (a link step that then needs the held lock while owning the wanted one = lock-order deadlock), inside every Condition.wait(), after every wake-up; all enumerated. After the link ended 16-25 further calls on the same socket. Service bodies SnepServer._listen/_serve and HandoverServer.listen/serve with 0-2 queued connection requests / request fragments, link ended at every preemption point, threads they start run afterwards. Dying driver: for 4 socket states (thorough: all) and the four server bodies each link-ending step with a MAC whose deactivate() raises IOError(ENODEV) inside terminate(). Connections returned by accept() while the link ended are exercised by 8 further calls. The link loop dying from inside: for every state one run-loop iteration whose outbound PDU can not be encoded (a thread sleeping in resolve() of a 261-octet name, in connect() to a 261-octet service name, or a raw access point that queued a PDU with DSAP 70; link MIU 2175) - exchange() must absorb the EncodeError and the loop end the link; an exception other than SystemExit/KeyboardInterrupt leaving run_as_initiator/run_as_target is the violation run-loop-raises. Several waiters: 2 application threads (real call stacks, one running at a time) asleep in the same kind of call - resolve() of different names, accept() on one listening socket, recv()/recvfrom() on one raw / logical-data-link / connection socket, blocking send() on one connection / raw socket, poll('recv'), poll('acks') - in each rotation of the order they went to sleep, then each link-ending step, the woken threads run in every order; none may stay asleep. Symbolic: where the link thread runs (flags), RW announced by the peer 0..15 (send window open/full), link MIU 128..2175 for connection-less sockets, payload octets, SNEP header version/length octets. Link thread preempted (family link_preempted): one link controller with service access points 0, 1, 16 (connection socket bound by name, listening, one accepted ESTABLISHED connection and one pending CONNECT), 40 (logical data link socket), 41 (raw access point) and three unbound sockets (connection, logical data link, raw). The link thread runs one terminator out of {llc.terminate() called directly, run loop of the initiator ended by the terminate callback (collect() runs first), DISC for the link received by the target, link disruption at the target} and is preempted at ONE of its preemption points - every acquisition of a lock by the link thread (llc.lock, each socket's lock; also re-acquisitions of a lock it owns, several in a row at one call site counted once), all enumerated: before terminate() takes llc.lock, before each socket's close() in ServiceAccessPoint.shutdown() (the socket is unbound, not yet closed; llc.lock held; part of the table already emptied), inside the sockets' close(), in ServiceDiscovery.shutdown(), and in the initiator's collect() - by ONE application call out of 38: socket(), resolve(); on the unbound connection socket bind() auto / by address / by name, listen(), connect() by address and by name, close(), getsockopt(); on the unbound logical data link socket sendto(), bind(), connect(); on the unbound raw socket send(MSG_DONTWAIT), bind(address); on the listening socket accept(), close(), poll('recv'), getsockopt(); on the established connection send() blocking and MSG_DONTWAIT, recv(), poll('recv'/'send'/'acks'), poll('recv', 0.5), close(), getsockopt(); on the logical data link socket sendto(), recvfrom(), poll('recv'), close(), connect(); on the raw socket send(), recv(), poll('recv'), close(), bind(). The call runs until it ends or blocks; one that needs a lock the link thread owns waits and goes on when the link thread has released it (there, or after the link step - both), one that sleeps in wait() goes on after the link step if it was notified, a wait with time-out times out after the link step. Then: the call has ended with a return value or nfc.llcp.Error, and the 16-25 later calls are made on each of the 7 sockets and on a socket the call created or accepted",
+    "thorough": "as quick with every nfc.clf.CommunicationError subclass (TimeoutError, TransmissionError, ProtocolError, BrokenLinkError, CommunicationError itself) raised by the MAC, all three un-encodable PDUs in every state and both roles, 2 and 3 sleeping threads per kind of call (all terminators, both roles, also after a conversation event), both roles (initiator/target run loop) x all 6 link-ending steps (adds NFC-DEP time-out in exchange) alone and after every listed conversation event (all 2-step scripts), VERIF_SEED-chosen scripts of 3-4 link steps (up to 4 preemptions) for 14 states, and for every state and call a second enumeration at source-line granularity: a preemption point before every line of nfc.llcp.llc/tco/socket and the two server modules that the application thread executes while it holds no lock (terminators: llc.terminate(), remote DISC); family link_preempted with all 10 link-ending steps at the target and the 4 of quick also at the initiator, every re-acquisition a preemption point of its own, the dying driver (5 steps), a conversation event (CONNECT, DISC, DM, I for the established connection, SYMM) delivered by a preemptible run-loop iteration of its own before link disruption (dispatch()/enqueue() and collect() preempted), the application call resumed at any later preemption point of the link thread once it was notified / the lock it waits for is free (llc.terminate(), link disruption, local choice at the initiator), and - llc.terminate() - a preemption point before every source line of LogicalLinkController.terminate, ServiceAccessPoint.shutdown and ServiceDiscovery.shutdown, i.e. between the iterations of the loop over the service access points and of the loop over the sockets of one of them (a line is a point once per state of table/sockets in which it is met)",
 }
 OUTSIDE = ["more than one *running* application thread (two calls racing on one socket, a second thread calling close() on a socket another thread waits on); several threads are covered only asleep in the same kind of call when the link ends, descheduled nowhere but in Condition.wait()",
            "schedules in which a link step has to wait for a lock the application thread owns without a lock-order cycle (pruned, listed as assumption when it occurs; it does not occur on the unchanged tree: the application side never nests two different locks)",
-           "preemption of the link thread: a link step (one run-loop iteration, terminate()) is atomic, so interleavings of an application call with the *inside* of terminate()/dispatch()/collect() are not explored (e.g. bind() racing the loop over the service access points)",
+           "preemption of the link thread beyond family link_preempted: everywhere else a link step (one run-loop iteration, terminate()) is atomic. In link_preempted ONE application call runs at ONE preemption point of the link thread, until it ends or blocks; not explored: two or more application calls inside one link step, an application call that is itself preempted by the link thread before it blocks, preemption of the link thread between two source lines that take no lock (thorough: except inside terminate()/ServiceAccessPoint.shutdown()/ServiceDiscovery.shutdown()), e.g. in the middle of dispatch()/collect()/a socket's close(); a wait(timeout) of the application call that times out while the link step still runs; socket states other than the 7 of that family's world; server bodies (SNEP/handover) as the preempting call",
            "more than 2 link steps in quick / more than 4 in thorough; preemption inside a line (bytecode granularity) and, in quick, anywhere but lock acquisitions and waits",
            "real OS scheduling, real timing of Condition.wait(timeout), fairness", "LLCP security (DPS exchange, encryption errors ending the run loop)",
            "the return of clf.connect()/llc.run to its caller (C18) and the NFC-DEP deactivation inside terminate() (MAC is a stub)",
            "application callbacks of the servers (process_put_request ...) blocking on their own"]
 ASSUMPTIONS = ["env.coop ThreadSched (several waiters): application threads are OS threads in strict alternation with the harness's main thread (link thread + scheduler); Condition.notify(n) wakes the first n waiters in FIFO order as threading.Condition does",
                "env.coop CoopThreading: RLock/Lock/Condition/Thread of the module attribute `threading` of nfc.llcp.tco, nfc.llcp.llc, nfc.snep.server, nfc.handover.server are replaced in both modes; logical threads in one OS thread; a link step runs to completion at a preemption point of the application thread; Condition.wait() without time-out forces the next link step (nothing else can wake the caller) and is 'left waiting for ever' when the script is exhausted and no notify on that condition happened since the wait began; wait(timeout) returns False after the virtual time-out unless a flag lets a link step run; notify wakes the single waiter; no spurious wake-ups",
+               "env.coop PreemptSched (family link_preempted): the link thread is the harness's main OS thread, the application call an OS thread of its own, exactly one of them running at a time; the baton changes hands at the chosen preemption point of the link thread (flag lpre_<n> at every lock acquisition / traced source line), where the application thread blocks in Condition.wait() or at a lock the other thread owns (it is runnable again when that lock is free; no fairness: the link thread may take the lock again first), at the release of that lock (flag lres_<n>) and after each link step; notify marks the waiter woken, no spurious wake-ups; the link thread needing a lock that a descheduled application thread owns is a deadlock when that thread can not go on, otherwise the path is pruned (listed as assumption when it occurs; neither occurs on the unchanged tree)",
                "a link step that reaches Condition.wait() without time-out is reported as 'link thread blocked' (only an application thread could wake it; with one application call under test none does)",
                "MAC below the run loop: instance of nfc.dep.Initiator/Target created without __init__, exchange() scripted (frame, None, IOError, nfc.clf.TimeoutError), deactivate() no-op; one link step = the real run loop left (BaseException) where it asks for the frame after the scripted one - a PDU collected for that exchange is dropped",
                "sockets in ESTABLISHED state come from the real passive open (listen, dispatch CONNECT, accept); 'a thread sleeping in connect()/close()/resolve()' = the call made by the set-up thread and abandoned at its wait()",
